@@ -12,6 +12,7 @@ contract's getters) that is not the ancestor path of a stored header of maximal 
 A difference from the implementation-shaped prediction that keeps the property is DRIFT (reported, exit 0).
 """
 import json
+import os
 
 FAMILIES = {"bsc": ["bsc", "bytom"], "heco": ["heco", "hsc"], "pixie": ["pixie"], "clique": ["msc"], "bor": ["bor"]}
 UNCOVERED = ["polygon bor: sprint boundaries (span validation against heimdall, proposer rotation) are outside the modelled domain", "msc: headers that cast clique votes (signer set changes by voting) are outside the modelled domain"]
@@ -60,11 +61,14 @@ def run(ctx):
         ctx.sample(items[0]["e"])
         return ctx.finish(rule="single replayed edge")
     plan = []      # (family, generation cfg, chain cfg)
-    for fam in FAMILIES:
+    # development aid for mutation self-tests that concern one router family only (the registered commands do not set it)
+    only = [f for f in os.environ.get("VERIF_C29_FAMILIES", "").split(",") if f]
+    fams = [f for f in FAMILIES if not only or f in only]
+    for fam in fams:
         if fam == "clique":
-            plan.append((fam, "C3" if q else "C4", "C"))
+            plan.append((fam, "C4" if q else "C5", "C"))
             if not q:
-                plan.append((fam, "D3", "D"))
+                plan.append((fam, "D4", "D"))
             continue
         if fam == "bor":
             plan.append((fam, "P3" if q else "P4", "P"))
@@ -87,6 +91,8 @@ def run(ctx):
     nb = 12 if q else 60
     sims = [("bsc", "B"), ("heco", "B")] if q else [("bsc", "A"), ("bsc", "B"), ("heco", "B"), ("pixie", "A"), ("clique", "D"), ("bor", "P")]
     for fam, c in sims:
+        if fam not in fams:
+            continue
         r = ctx.tlc("MCPoSA", "PoSA_%s_%s_sim.cfg" % (fam, c), workers=1, simulate="num=1", depth=nb * 17 + 1, timeout=2400)
         if r.rc != 0:
             ctx.fail("simulation run failed (%s %s) rc=%d (%s):\n%s" % (fam, c, r.rc, r.invariant_violated, r.out[-3000:]))
@@ -97,7 +103,7 @@ def run(ctx):
             _replay(ctx, b, router, c, traces, stats, "behaviours %s" % c)
             ctx.cov["traces_validated_against_impl"] += len(traces)
     if not q:
-        for fam in ("bsc", "heco", "pixie"):
+        for fam in [f for f in ("bsc", "heco", "pixie") if f in fams]:
             ctx.mc("MCPoSA", "PoSA_%s_A5_mc.cfg" % fam, timeout=2400)
             ctx.mc("MCPoSA", "PoSA_%s_B4_mc.cfg" % fam, timeout=2400)
     ctx.cov["evaluations"] = stats["evaluations"]
